@@ -5,6 +5,8 @@ import (
 	"encoding/json"
 	"github.com/gotid/god/lib/lang"
 	"gopkg.in/yaml.v2"
+	"math"
+	"strconv"
 )
 
 func YamlToJson(data []byte) ([]byte, error) {
@@ -39,6 +41,12 @@ func toStringKeyMap(v any) any {
 }
 
 func convertNumberToJsonNumber(v any) json.Number {
+	// beyond 2^53 a float64 no longer identifies one integer: keep float notation, so that
+	// integer fields reject the value instead of storing a rounded one.
+	if f, ok := v.(float64); ok && math.Abs(f) >= 1<<53 && !math.IsInf(f, 0) {
+		return json.Number(strconv.FormatFloat(f, 'e', -1, 64))
+	}
+
 	return json.Number(lang.Repr(v))
 }
 
